@@ -1,5 +1,6 @@
 import NomtModel.Basic.Bytes
 import NomtModel.Basic.Blake3
+import NomtModel.Basic.Sha256
 import NomtModel.Core.Basic
 /-!
 Executable instance of `Hasher` mirroring `core/src/hasher.rs` `BinaryHasher<Blake3>`:
@@ -19,6 +20,13 @@ def blakeHasher : Hasher ByteArray ByteArray where
   term := zeros32
   leaf := fun k v => setMsb (Blake3.hash (bytesOfBits k ++ v))
   internal := fun l r => unsetMsb (Blake3.hash (l ++ r))
+  kind := kindByMsb
+
+/-- `BinaryHasher<Sha2BinaryHasher>` (`core/src/hasher.rs`, module `sha2`): the same MSB labelling over SHA-256 -/
+def shaHasher : Hasher ByteArray ByteArray where
+  term := zeros32
+  leaf := fun k v => setMsb (Sha256.hash (bytesOfBits k ++ v))
+  internal := fun l r => unsetMsb (Sha256.hash (l ++ r))
   kind := kindByMsb
 
 end Nomt
